@@ -120,6 +120,19 @@ class SetSub(set):
     pass
 
 
+class ODSub(collections.OrderedDict):
+    """OrderedDict subclass: items plus (possibly no) instance attributes"""
+
+
+class ODSlots(collections.OrderedDict):
+    """OrderedDict subclass whose own state lives in a slot and whose __init__ takes no items"""
+    __slots__ = ("limit",)
+
+    def __init__(self):
+        super().__init__()
+        self.limit = None
+
+
 class TupleSub(tuple):
     pass
 
